@@ -126,6 +126,21 @@ def foreign_or_follower(sh, a, b, rnd):
     return shapes.follower_of(sh, a, rnd) if rnd.random() < 0.7 else a
 
 
+def directed_shrink(sh, i, rnd):
+    """a pair in which collection field i loses more than half of its entries but keeps one or two (non-empty replacement)"""
+    f = sh['fields'][i]
+    a = list(shapes.gen_value(sh, rnd))
+    for _ in range(40):
+        if len(a[i + 1]) - 1 >= 4: break
+        a[i + 1] = shapes.gen_field(f, rnd)
+    if len(a[i + 1]) - 1 < 4:
+        return None
+    b = list(a) if rnd.random() < 0.5 else list(shapes.mutate_value(sh, a, rnd, 0.3))
+    keep = rnd.sample(a[i + 1][1:], 1 if len(a[i + 1]) - 1 < 6 else rnd.choice([1, 2]))
+    b[i + 1] = [a[i + 1][0]] + sorted(keep, key=lambda x: int(x[0]) if isinstance(x, list) else int(x))
+    return a, b, (shapes.follower_of(sh, a, rnd) if rnd.random() < 0.5 else a), 'shrink-directed'
+
+
 def pair_requests(shs, tier, seed, per_shape=None):
     rnd = random.Random(seed)
     n = per_shape or (25 if tier == 'quick' else 400)
@@ -134,6 +149,18 @@ def pair_requests(shs, tier, seed, per_shape=None):
         for _ in range(n):
             a, b, f, cls = pair_classes(sh, rnd)
             out.append((i, 'pair', [a, b, f], cls))
+    # directed requests, appended with their OWN random stream (so that adding one never shifts the streams above):
+    # a map whose (K, V) pair is padded in memory must see a non-empty replacement in every run
+    rnd2 = random.Random(seed * 31 + 7)
+    for i, sh in enumerate(shs):
+        if sh['t'] != 'struct':
+            continue
+        for j, f in enumerate(sh['fields']):
+            if f['k'] == 'map' and f.get('vty', 'u32') != 'u32' and not f['skip']:
+                for _ in range(4):
+                    r = directed_shrink(sh, j, rnd2)
+                    if r is not None:
+                        out.append((i, 'pair', [r[0], r[1], r[2]], r[3]))
     return out
 
 
